@@ -90,4 +90,16 @@ def partitions(tier, seed):
             parts.extend(shape_parts("C01", PROP, sp.cmd_key(), "%s-%s" % (sp.cc_name(cc), label), data, enum_leaves=not quick))
         for label, enc, data in G.responses(cc):
             parts.extend(shape_parts("C01", PROP, sp.rsp_key(), "%s-%s" % (sp.cc_name(cc), label), data, cc=cc, enc=enc, enum_leaves=not quick))
+    if quick:
+        # the encrypted-parameter layouts of ALL command codes (cheap: one path each); the rotation above only
+        # covers 14 + core codes and the synthesized layout depends on each code's parameter list
+        for cc in sp.cc_list():
+            if cc in ccs:
+                continue
+            for label, data in G.commands(cc):
+                if label.startswith("decrypt"):
+                    parts.extend(shape_parts("C01", PROP, sp.cmd_key(), "%s-%s" % (sp.cc_name(cc), label), data))
+            for label, enc, data in G.responses(cc):
+                if label.startswith("encrypt"):
+                    parts.extend(shape_parts("C01", PROP, sp.rsp_key(), "%s-%s" % (sp.cc_name(cc), label), data, cc=cc, enc=enc))
     return parts
